@@ -38,9 +38,14 @@ func vSetup() (d *tcpDriver, cfg *TCPv4, sink *N.Sink, src *N.Source, min, m uin
 			break
 		}
 	}
-	if paris && m > min {
-		// Paris mode draws a random 32-bit sequence number per probe; the property holds up to collisions of those.
-		V.Assume(!V.BytesEq(sink.Pkts[0][24:28], sink.Pkts[1][24:28]))
+	if paris {
+		// Paris mode draws a random 32-bit sequence number per probe; the property holds up to collisions of those
+		// (every pair of probes sent, not only the first two: W = 3 in the thorough tier).
+		for i := range sink.Pkts {
+			for k := i + 1; k < len(sink.Pkts); k++ {
+				V.Assume(!V.BytesEq(sink.Pkts[i][24:28], sink.Pkts[k][24:28]))
+			}
+		}
 	}
 	return
 }
